@@ -813,9 +813,73 @@ def script(assertions, logic='ALL', get_model_for=None, extra_opts=()):
             lines.append('(declare-fun %s (%s) %s)' % (sym(f.name), ' '.join(s for _, s in f.params), f.ret))
     defs = [FUNDEFS[n] for n in sorted(need_defs) if FUNDEFS[n].body is not None]
     if defs:
-        sigs = ' '.join('(%s (%s) %s)' % (sym(f.name), ' '.join('(%s %s)' % (sym(p), s) for p, s in f.params), f.ret) for f in defs)
-        bodies = '\n  '.join(to_smt(f.body) for f in defs)
-        lines.append('(define-funs-rec (%s)\n (%s))' % (sigs, bodies))
+        # call graph among the needed definitions: recursive components go into define-funs-rec,
+        # everything else is an ordinary define-fun (a macro for the solver), emitted in dependency order
+        names = set(f.name for f in defs)
+        calls = {}
+        for f in defs:
+            sub = {'vars': {}, 'apps': set(), 'sorts': set()}
+            _collect(f.body, {}, sub)
+            calls[f.name] = set(a for a in sub['apps'] if a in names)
+        reach = dict((n, set(c)) for n, c in calls.items())
+        changed = True
+        while changed:
+            changed = False
+            for n in reach:
+                add = set()
+                for m in reach[n]:
+                    add |= reach[m]
+                if not add <= reach[n]:
+                    reach[n] |= add
+                    changed = True
+        rec = set(n for n in names if n in reach[n])
+        byname = dict((f.name, f) for f in defs)
+
+        def sig(f):
+            return '(%s (%s) %s)' % (sym(f.name), ' '.join('(%s %s)' % (sym(p), s) for p, s in f.params), f.ret)
+        emitted = set()
+        rec_done = False
+
+        def emit_rec():
+            rl = [byname[n] for n in sorted(rec)]
+            lines.append('(define-funs-rec (%s)\n (%s))' % (' '.join(sig(f) for f in rl), '\n  '.join(to_smt(f.body) for f in rl)))
+        pending = [n for n in sorted(names) if n not in rec]
+        # non-recursive functions that the recursive block depends on must come first
+        def ready(n):
+            return all((m in emitted) or (m in rec and rec_done) for m in calls[n])
+        progress = True
+        while pending and progress:
+            progress = False
+            for n in list(pending):
+                if all((m in emitted) for m in calls[n] if m not in rec) and not (calls[n] & rec):
+                    f = byname[n]
+                    lines.append('(define-fun %s (%s) %s %s)' % (sym(f.name), ' '.join('(%s %s)' % (sym(p), s) for p, s in f.params), f.ret, to_smt(f.body)))
+                    emitted.add(n)
+                    pending.remove(n)
+                    progress = True
+        if rec:
+            # non-recursive functions used by the recursive block but depending on it would be circular; they are not (by construction)
+            missing = set()
+            for n in rec:
+                missing |= set(m for m in calls[n] if m not in rec and m not in emitted)
+            for n in sorted(missing):
+                # depends (transitively) on the recursive block and is used by it: treat as part of it
+                rec.add(n)
+                if n in pending:
+                    pending.remove(n)
+            emit_rec()
+            rec_done = True
+        progress = True
+        while pending and progress:
+            progress = False
+            for n in list(pending):
+                if all((m in emitted) or (m in rec) for m in calls[n]):
+                    f = byname[n]
+                    lines.append('(define-fun %s (%s) %s %s)' % (sym(f.name), ' '.join('(%s %s)' % (sym(p), s) for p, s in f.params), f.ret, to_smt(f.body)))
+                    emitted.add(n)
+                    pending.remove(n)
+                    progress = True
+        assert not pending, pending
     for n in sorted(need_defs):
         for ax in FUNDEFS[n].axioms:
             lines.append('(assert %s)' % to_smt(ax))
